@@ -256,6 +256,12 @@ func vfH_C02_push_always_acked() {
 	f.payload = vfBytes("dg_payload", f.ln)
 	below := _itimediff(f.sn, k.rcv_nxt+k.rcv_wnd) < 0
 	acks0 := len(k.acklist)
+	preOwed := false // an acknowledgement of the same number was already owed before this datagram
+	for i := 0; i < acks0; i++ {
+		if vfConcreteBool(k.acklist[i].sn == f.sn) {
+			preOwed = true
+		}
+	}
 	vfReach("pre")
 	vfSetClock(vfU32("now"))
 	k.Input(vfEncodeDatagram(f), IKCP_PACKET_REGULAR, vfBool("ackNoDelay"))
@@ -284,6 +290,11 @@ func vfH_C02_push_always_acked() {
 	}
 	if queued {
 		vfAssert("acks/echo-timestamp", k.acklist[len(k.acklist)-1].ts == f.ts)
+	}
+	// the converse, without which the sender forgets data the receiver never had: a sequence
+	// number is acknowledged only if the receiver holds it or has already delivered it
+	if (queued || onWire) && !preOwed {
+		vfAssert("acks/acknowledged-only-if-held-or-delivered", vfOr(_itimediff(f.sn, k.rcv_nxt) < 0, k.rcv_buf.Has(f.sn)))
 	}
 }
 
